@@ -277,7 +277,8 @@ impl Chip126x {
     fn start_op(&mut self, kind: OpKind) {
         self.abort_op();
         let missing = item::ALL & !self.prog;
-        self.op_starts.push(OpStart { kind, from: self.mode, missing, txn: self.transcript.len() });
+        let sync = (self.reg(REG_LORA_SYNC_WORD_MSB) as u16) << 8 | self.reg(REG_LORA_SYNC_WORD_LSB) as u16;
+        self.op_starts.push(OpStart { kind, from: self.mode, missing, txn: self.transcript.len(), sync });
         let outcome = self.script.pop_front().unwrap_or_else(|| self.default_outcome.clone());
         self.pending = outcome.into();
         self.op = Some(kind);
